@@ -4,6 +4,8 @@
   Layout.lean    - sizeof/offsetof/bit-field masks/public constants, measured by the `layout.dump`
                    command of the driver built from the current headers
   Formulas.lean  - loop-free integer functions translated from clang-14's typed AST
+  Streams.lean   - guards and cursor updates of the stream classes' member functions (same translator,
+                   member-function fragment); a file of its own so that only C12-C14 depend on it
   Constants.lean - literals scraped from function bodies the two above cannot see
 Files are only rewritten when their content changes (keeps `lake build` incremental)."""
 import os, re, subprocess, sys
@@ -85,6 +87,12 @@ def regenerate(drv_exe, repo=REPO):
     txt, fb = c2lean.generate(repo)
     info["fallback"] = fb
     if _write_if_changed(os.path.join(GEN, "Formulas.lean"), txt): info["changed"].append("Formulas.lean")
+    try:
+        stxt, sfb = c2lean.generate_streams(repo)
+        info["fallback"] = list(fb) + sfb
+        if _write_if_changed(os.path.join(GEN, "Streams.lean"), stxt): info["changed"].append("Streams.lean")
+    except Exception as e:   # clang missing, …: leave the committed file in place and say so
+        info["problems"].append(f"Streams.lean not regenerated: {type(e).__name__}: {e}")
     consts, problems = scrape_constants(repo)
     info["problems"] += problems
     lines = ["-- GENERATED by extract/extract.py (literal scraper) from /repo's current sources; do not edit",
